@@ -84,10 +84,17 @@ func igamRegion(a, x float64, normalised, invert bool) string {
 			return "temme"
 		}
 	}
-	if x-1/(3*x) < a {
-		return "series"
+	// a > 200: series and continued fraction converge slowest right outside the Temme zone
+	edge := ""
+	if normalised && a > 200 {
+		if sigma := math.Abs((x - a) / a); 40/a > sigma*sigma {
+			edge = "|temme-edge"
+		}
 	}
-	return "cf"
+	if x-1/(3*x) < a {
+		return "series" + edge
+	}
+	return "cf" + edge
 }
 
 func prefixRegion(a, x float64) string {
@@ -139,6 +146,7 @@ func besselRegion(v, x float64) string {
 		return "small-z-series"
 	}
 	r := "ik"
+	kUnderflows := false
 	if v < 0 {
 		r += "|reflect"
 		v = -v
@@ -147,7 +155,8 @@ func besselRegion(v, x float64) string {
 		r += "|temme"
 	} else {
 		r += "|cf2"
-		if x > 745 {
+		kUnderflows = math.Sqrt(math.Pi/(2*x))*math.Exp(-x) == 0 // x >= 743.2
+		if kUnderflows {
 			r += "|exp(-x)-underflows"
 		}
 	}
@@ -163,7 +172,23 @@ func besselRegion(v, x float64) string {
 	default:
 		r += "|cf1-wronskian"
 	}
+	if !kUnderflows && logBesselKApprox(v+1, x) > 709.78 {
+		// K_{v+1}(x) exceeds the float64 range: the forward recurrence rescales (`scale`)
+		r += "|K-rescaled"
+	}
 	return r
+}
+
+// logBesselKApprox: leading term of the uniform (Debye) expansion of log K_v(x), v > 0;
+// only used to NAME the branch in which the K recurrence overflows and is rescaled.
+func logBesselKApprox(v, x float64) float64 {
+	if !(v > 1) {
+		return 0
+	}
+	z := x / v
+	w := math.Sqrt(1 + z*z)
+	eta := w + math.Log(z/(1+w))
+	return 0.5*math.Log(math.Pi/(2*v)) - v*eta - 0.5*math.Log(w)
 }
 
 func logErfcRegion(x float64) string {
@@ -213,9 +238,16 @@ func trigammaRegion(x float64) string {
 
 func polygammaRegion(n int, x float64) string {
 	nb := "n=2..6"
-	if n > 20 {
-		nb = "n>20"
-	} else if n > 6 {
+	switch {
+	case n > 1000:
+		nb = "n>1000"
+	case n > 170:
+		nb = "n>170" // n! overflows
+	case n >= 115:
+		nb = "n=115..170" // log-domain forward recursion in the transition zone
+	case n > 20:
+		nb = "n=21..114"
+	case n > 6:
 		nb = "n=7..20"
 	}
 	switch {
@@ -396,6 +428,9 @@ func rowChecks(p Pt, row string) ([]chk, error) {
 		}
 		k := int(a)
 		reg := "k=1..4"
+		if k > 4 {
+			reg = "k>4"
+		}
 		return []chk{
 			{fn: "Mgamma", region: reg, call: fmt.Sprintf("Mgamma(%v, %d)", x, k), f: func() float64 { return sp.Mgamma(x, k) }, ref: r1, sens: s1},
 			{fn: "Mlgamma", region: reg, call: fmt.Sprintf("Mlgamma(%v, %d)", x, k), f: func() float64 { return sp.Mlgamma(x, k) }, ref: r2, sens: s2},
